@@ -18,7 +18,7 @@
 (* framed TLS - none of them is a MerkleTreeLeaf, each must end in 5xx     *)
 (* without an SCT.                                                         *)
 (***************************************************************************)
-EXTENDS Naturals, Sequences, TLC
+EXTENDS Naturals, Sequences, FiniteSets, TLC
 
 Endpoints == {"add-chain", "add-pre-chain", "get-sth", "get-sth-consistency", "get-proof-by-hash",
               "get-entries", "get-roots", "get-entry-and-proof"}
@@ -31,13 +31,13 @@ RPC(ep) == CASE ep \in {"add-chain", "add-pre-chain"} -> "QueueLeaf"
              [] ep = "get-entry-and-proof" -> "GetEntryAndProof"
              [] OTHER -> "none"          \* get-roots talks to no backend
 
-Codes == 1..16     \* gRPC status codes Canceled .. Unauthenticated
+Codes == 1..17     \* gRPC status codes Canceled .. Unauthenticated; 17: an error that carries no gRPC status at all
 
 \* classes of malformed replies and the RPCs they apply to
 Malformed(rpc) ==
   CASE rpc = "QueueLeaf" -> {"nilQueuedLeaf", "queuedLeafWithoutLeaf", "echoedLeafUndecodable", "echoedLeafTrailing", "echoedLeafEmpty"}
     [] rpc = "GetLatestSignedLogRoot" -> {"noRoot", "garbledRoot", "rootHashSize31", "rootHashSize33", "rootHashEmpty"}
-    [] rpc = "GetConsistencyProof" -> {"noRoot", "garbledRoot", "treeSmaller", "nilProof", "proofHashSize31", "proofHashEmpty"}
+    [] rpc = "GetConsistencyProof" -> {"noRoot", "garbledRoot", "treeSmaller", "nilProof", "proofHashSize31", "proofHashSize33", "proofHashEmpty"}
     [] rpc = "GetInclusionProofByHash" -> {"noRoot", "garbledRoot", "treeSmaller", "emptyProofList", "proofHashSize31", "proofHashEmpty"}
     [] rpc = "GetLeavesByRange" -> {"noRoot", "garbledRoot", "treeSmaller", "surplusLeaves", "misIndexedLeaf"}
     [] rpc = "GetEntryAndProof" -> {"noRoot", "garbledRoot", "treeSmaller", "nilLeaf", "emptyLeafValue", "nilProof", "emptyProofHashes"}
@@ -58,6 +58,54 @@ MalformedClass(m) ==
   CASE m = "treeSmaller" -> "4xx"         \* the tree the backend reports is smaller than the request needs
     [] m = "emptyProofList" -> "4xx"      \* NoProofMeansNotFound: the backend answers an unknown hash with its root only
     [] OTHER -> "5xx"
+
+(* ---- the configuration: InstanceOptions.ErrorMapper ---- *)
+\* "toHTTPStatus gRPC code mapping ... and ErrorMapper override": an operator may configure a function from a backend
+\* error to (status, ok).  Where it answers ok the status is the mapper's (named clause MapperOverrides: the operator's
+\* word; the matrix only holds mappers that never say 2xx - named assumption MapperNeverSuccess); where it DECLINES
+\* (ok = false) the configuration says nothing about that error and the property's table holds as on an instance
+\* without a mapper (law DeclinedFallsBack) - for every code, on every endpoint, with masking on and off.
+\*   none         no mapper configured (what ct_server runs)
+\*   declinesAll  a mapper that has no opinion on anything
+\*   partial      the usual shape: overrides a few conditions (NotFound -> 410, Aborted -> 503, Internal -> 502), declines the rest
+\*   total        has an answer for every error, also for one without a gRPC status
+Mappers == {"none", "declinesAll", "partial", "total"}
+\* 0: the mapper declines (or there is none)
+MapperSays(m, code) ==
+  CASE m = "partial" -> (CASE code = 5 -> 410 [] code = 10 -> 503 [] code = 13 -> 502 [] OTHER -> 0)
+    [] m = "total" -> (CASE code \in {1, 4} -> 504 [] code = 8 -> 429 [] code = 14 -> 503
+                         [] code \in {3, 5, 6, 7, 9, 10, 11, 16} -> 422 [] OTHER -> 502)
+    [] OTHER -> 0
+StatusName(n) == CASE n = 410 -> "410" [] n = 422 -> "422" [] n = 429 -> "429" [] n = 502 -> "502" [] n = 503 -> "503" [] n = 504 -> "504"
+CodeExpected(m, code) == IF MapperSays(m, code) # 0 THEN StatusName(MapperSays(m, code)) ELSE CodeClass(code)
+
+(* ---- get-proof-by-hash: a reply that carries several proofs ---- *)
+\* RFC 6962 4.5 answers with ONE leaf_index and ONE audit_path; the backend's reply is a LIST of proofs (a leaf hash
+\* that is in the tree several times comes back once per occurrence).  The reply is described proof by proof: the leaf
+\* index it is for and whether one of its nodes (the first / the last of the path) has the wrong size (31 octets, 33,
+\* none at all).  Lists of 1, 2, 3 proofs; leaf indices ascending, descending, all equal; the malformed proofs any
+\* subset of the positions - so the malformed one is the first / a later one, is / is not the one with the lowest index.
+\* "whose proof hashes have the wrong size (on the two proof-only endpoints) ... neither crashes nor answers 200":
+\*   ProofNeverMalformed  a 200 never carries an audit_path with a node that is not 32 octets, and what it carries is
+\*                        (leaf_index, audit_path) of ONE proof of the reply; if every proof of the reply is malformed
+\*                        the answer is 5xx.
+\* NAMED CLAUSE ServedProofUnasserted.  The property does not say WHICH of several proofs is served, nor that a reply
+\* must be refused for a malformed proof that is not the one served: a list with at least one well-formed proof may be
+\* answered 5xx or with any well-formed proof of it (class "5xx-or-wellformed").
+ProofCounts == 1..3
+IndexOrders == {"asc", "desc", "equal"}
+BadNodes == {"size31", "size33", "empty"}
+NodeAt == {"first", "last"}
+IndexOf(order, n, i) == CASE order = "asc" -> i [] order = "desc" -> n + 1 - i [] OTHER -> 1
+ProofList(n, order, bad, kind, at) ==
+  [i \in 1..n |-> [idx |-> IndexOf(order, n, i), bad |-> IF i \in bad THEN kind ELSE "none", at |-> at]]
+ProofLists ==
+  {ProofList(n, o, {}, "none", "first") : n \in ProofCounts \ {1}, o \in IndexOrders}      \* surplus proofs, none malformed
+  \cup UNION {{ProofList(n, o, b, k, a) : o \in (IF n = 1 THEN {"asc"} ELSE IndexOrders), b \in (SUBSET (1..n)) \ {{}},
+                                         k \in BadNodes, a \in NodeAt} : n \in ProofCounts}
+GoodProofs(pl) == {i \in DOMAIN pl : pl[i].bad = "none"}
+ProofListClass(pl) == IF GoodProofs(pl) = {} THEN "5xx" ELSE "5xx-or-wellformed"
+LowestIndexAt(pl) == {i \in DOMAIN pl : \A j \in DOMAIN pl : pl[i].idx <= pl[j].idx}
 
 (* ---- the leaf QueueLeaf echoes, field by field (RFC 6962 3.4 / 3.2 / 3.1) ---- *)
 \*   struct { Version version; MerkleLeafType leaf_type;
@@ -110,9 +158,11 @@ EchoClass(e) == IF ~EchoVersionAsserted /\ OnlyVersionDeviates(e) THEN "unassert
 
 Fault == [kind : {"code"}, code : Codes] \cup [kind : {"malformed"}, class : STRING]
          \cup [kind : {"malformed"}, class : {"echoedLeafFields"}, echo : EchoFaults]
+         \cup [kind : {"malformed"}, class : {"proofList"}, proofs : ProofLists]
 
 Expected(ep, f) == IF f.kind = "code" THEN CodeClass(f.code)
                    ELSE IF f.class = "echoedLeafFields" THEN EchoClass(f.echo)
+                   ELSE IF f.class = "proofList" THEN ProofListClass(f.proofs)
                    ELSE MalformedClass(f.class)
 
 (* ---- bad requests: 4xx before any backend call ---- *)
@@ -137,35 +187,72 @@ ParamClasses(ep) ==
 (* ---- case enumeration ---- *)
 VARIABLE c
 
-FaultCases == {[t |-> "fault", ep |-> ep, fault |-> [kind |-> "code", code |-> k], pos |-> p, mask |-> m] :
-                  ep \in {e \in Endpoints : RPC(e) # "none"}, k \in Codes, p \in 1..3, m \in BOOLEAN}
+\* mapper: the configured ErrorMapper; mapped: what it says to this error (0: it declines / there is none)
+FaultCases == {[t |-> "fault", ep |-> ep, fault |-> [kind |-> "code", code |-> k], pos |-> p, mask |-> m, mapper |-> mp, mapped |-> MapperSays(mp, k)] :
+                  ep \in {e \in Endpoints : RPC(e) # "none"}, k \in Codes, p \in 1..3, m \in BOOLEAN, mp \in Mappers}
               \cup UNION {{[t |-> "fault", ep |-> ep, fault |-> [kind |-> "malformed", class |-> x], pos |-> p, mask |-> m] :
                              x \in Malformed(RPC(ep)), p \in 1..3, m \in BOOLEAN} : ep \in Endpoints}
 \* the field-by-field echoes: both submission endpoints (the honest leaf is an x509_entry on add-chain and a
 \* precert_entry on add-pre-chain; the echo's entry_type is the description's, so "the other arm" occurs on both)
 EchoCases == {[t |-> "fault", ep |-> ep, fault |-> [kind |-> "malformed", class |-> "echoedLeafFields", echo |-> e], pos |-> p, mask |-> m] :
                  ep \in {x \in Endpoints : RPC(x) = "QueueLeaf"}, e \in EchoFaults, p \in 1..3, m \in BOOLEAN}
+\* the proof lists of get-proof-by-hash
+ProofListCases == {[t |-> "fault", ep |-> "get-proof-by-hash", fault |-> [kind |-> "malformed", class |-> "proofList", proofs |-> pl], pos |-> p, mask |-> m] :
+                      pl \in ProofLists, p \in 1..3, m \in BOOLEAN}
 ParamCases == UNION {{[t |-> "param", ep |-> ep, class |-> x] : x \in ParamClasses(ep)} : ep \in Endpoints}
 
-Init == c \in FaultCases \cup EchoCases \cup ParamCases
+Init == c \in FaultCases \cup EchoCases \cup ProofListCases \cup ParamCases
 Next == UNCHANGED c
 
-Exp(x) == IF x.t = "fault" THEN Expected(x.ep, x.fault) ELSE "4xx-nobackend"
+Exp(x) == IF x.t = "param" THEN "4xx-nobackend"
+          ELSE IF x.fault.kind = "code" THEN CodeExpected(x.mapper, x.fault.code)
+          ELSE Expected(x.ep, x.fault)
 
 \* the model-level statement of "never surfaces as success"
 \* (the only case without a demanded status class is the named clause EchoVersionUnasserted)
+IsProofList(x) == x.t = "fault" /\ x.fault.kind = "malformed" /\ x.fault.class = "proofList"
+IsCode(x) == x.t = "fault" /\ x.fault.kind = "code"
 NeverOK == \/ Exp(c) \in {"4xx", "429", "503", "504", "5xx", "4xx-nobackend"}
+           \/ IsCode(c) /\ c.mapped # 0 /\ Exp(c) = StatusName(c.mapped)             \* MapperOverrides
+           \/ IsProofList(c) /\ Exp(c) = "5xx-or-wellformed" /\ GoodProofs(c.fault.proofs) # {}    \* ServedProofUnasserted
            \/ /\ Exp(c) = "unasserted" /\ ~EchoVersionAsserted
               /\ c.t = "fault" /\ c.fault.kind = "malformed" /\ c.fault.class = "echoedLeafFields" /\ OnlyVersionDeviates(c.fault.echo)
 \* retryable statuses are exactly quota / unavailability / timeout
 \* an echo in the fault matrix is never a leaf of the protocol, and every way of not being one is in the matrix:
 \* each enumerated field with each undefined value, each floored vector at length 0, alone and combined
 EchoFaultsAreFaults ==
-  /\ (c.t = "fault" /\ c.fault.kind = "malformed" /\ c.fault.class = "echoedLeafFields") =>
+     (c.t = "fault" /\ c.fault.kind = "malformed" /\ c.fault.class = "echoedLeafFields") =>
         (~WellFormedV1(c.fault.echo) /\ (Exp(c) = "5xx" \/ (~EchoVersionAsserted /\ OnlyVersionDeviates(c.fault.echo))))
+\* (the constant part: checked once, as an assumption of the model-checking module)
+EchoDimensionComplete ==
   /\ \A v \in EchoVersions \ {0} : \E e \in EchoFaults : e.version = v /\ e.leafType = 0 /\ e.entryType \in {0, 1} /\ e.len = "own"
   /\ \A l \in EchoLeafTypes \ {0} : \A b \in EchoBodies : \E e \in EchoFaults : e.version = 0 /\ e.leafType = l /\ e.body = b
   /\ \A y \in EchoEntryTypes \ {0, 1} : \E e \in EchoFaults : e.version = 0 /\ e.leafType = 0 /\ e.entryType = y /\ e.len = "own"
   /\ \A y \in {0, 1} : \A x \in EchoExts : \E e \in EchoFaults : e.version = 0 /\ e.leafType = 0 /\ e.entryType = y /\ e.len = "zero" /\ e.ext = x
+\* the mapper dimension: no mapper of the matrix says 2xx; an error the mapper declines is judged exactly as on an instance
+\* without a mapper; the matrix holds, for every mapper with an opinion, errors it maps AND errors it declines whose
+\* class is not plain 5xx (so "declined = 500" and "declined = table" differ)
+MapperLaws ==
+     IsCode(c) => /\ c.mapped = MapperSays(c.mapper, c.fault.code) /\ (c.mapped = 0 \/ c.mapped \in 400..599)
+                  /\ (c.mapped = 0 => Exp(c) = CodeClass(c.fault.code))
+                  /\ (c.mapper \in {"none", "declinesAll"} => c.mapped = 0)
+\* (constant: checked once, as an assumption of the model-checking module)
+MapperDimensionComplete ==
+  /\ \E k \in Codes : MapperSays("partial", k) # 0
+  /\ \A cl \in {"4xx", "429", "503", "504"} : \E k \in Codes : MapperSays("partial", k) = 0 /\ CodeClass(k) = cl
+  /\ \A k \in Codes : MapperSays("total", k) # 0
+\* the proof lists: 5xx is demanded exactly when no proof of the reply could be served; every combination the dimension
+\* names is in the matrix (the malformed proof first / later; in / not in the lowest-index proof; every order; all malformed)
+ProofListLaws ==
+     IsProofList(c) => LET pl == c.fault.proofs IN
+        /\ Len(pl) \in ProofCounts /\ (Exp(c) = "5xx" <=> GoodProofs(pl) = {})
+        /\ \A i \in DOMAIN pl : pl[i].idx \in 1..3 /\ pl[i].bad \in BadNodes \cup {"none"}
+ProofListDimensionComplete ==
+  /\ \E pl \in ProofLists : Len(pl) >= 2 /\ pl[1].bad = "none" /\ pl[2].bad # "none" /\ 2 \in LowestIndexAt(pl) /\ 1 \notin LowestIndexAt(pl)
+  /\ \E pl \in ProofLists : Len(pl) >= 2 /\ pl[1].bad = "none" /\ pl[2].bad # "none" /\ 1 \in LowestIndexAt(pl) /\ 2 \notin LowestIndexAt(pl)
+  /\ \E pl \in ProofLists : Len(pl) >= 2 /\ pl[1].bad # "none" /\ pl[2].bad = "none"
+  /\ \E pl \in ProofLists : Len(pl) = 3 /\ pl[1].bad = "none" /\ pl[2].bad = "none" /\ pl[3].bad # "none" /\ LowestIndexAt(pl) = {3}
+  /\ \E pl \in ProofLists : Len(pl) = 3 /\ GoodProofs(pl) = {}
+  /\ \E pl \in ProofLists : Len(pl) = 2 /\ LowestIndexAt(pl) = {1, 2} /\ pl[2].bad # "none" /\ pl[1].bad = "none"
 RetryableOnlyForTransient == (c.t = "fault" /\ c.fault.kind = "malformed") => Exp(c) \notin {"429", "503", "504"}
 =============================================================================
